@@ -5,6 +5,7 @@ import (
 	"go/constant"
 	"go/token"
 	"go/types"
+	"strings"
 
 	"golang.org/x/tools/go/ssa"
 
@@ -660,6 +661,49 @@ func c07E5(l *core.Ledger, r *rt) {
 			})
 		})
 		l.Check(must && okVal, "C07-E5", "gorums.WrapMessage", fn.Pos(), "md.Status = status of the handler's error on every path", fmt.Sprintf("handler errors do not travel: Status stored on every path: %v; value is FromError(err) / New(Unknown, err.Error()): %v", must, okVal))
+	}
+	// the status travels in a reply without payload: a handler of a server-stream method reports its
+	// error with WrapMessage(md, nil, err) - the encoder must not refuse a Message whose payload is nil
+	if gm := r.mustFn("C07-E5", "Codec.gorumsMarshal"); gm != nil && len(gm.Params) >= 2 {
+		msgp := gm.Params[1]
+		refused := token.NoPos
+		sx.AllInstrs(gm, func(_ sx.Node, in ssa.Instruction) {
+			ifi, ok := in.(*ssa.If)
+			if !ok {
+				return
+			}
+			cv, _ := condOf(ifi)
+			b, ok := cv.(*ssa.BinOp)
+			if !ok || (b.Op != token.EQL && b.Op != token.NEQ) {
+				return
+			}
+			k, isC := b.Y.(*ssa.Const)
+			if !isC || !k.IsNil() || !sx.All(sx.Origins(b.X), sx.IsFieldNamed("Message", sx.IsParam(msgp))) {
+				return
+			}
+			nilEdge := edgeWhere(ifi, b.Op == token.EQL)
+			if len(nilEdge.To.Instrs) == 0 {
+				return
+			}
+			w, reach := sx.Reach(sx.Node{B: nilEdge.To, I: -1}, func(n sx.Node) bool {
+				ret, ok := n.Instr().(*ssa.Return)
+				if !ok || len(ret.Results) != 2 {
+					return false
+				}
+				return sx.All(sx.Origins(ret.Results[1]), func(o sx.Origin) bool {
+					c, isCall := o.V.(*ssa.Call)
+					return o.Kind == sx.KCall && isCall && (calleeIs(&c.Call, "fmt.Errorf") || calleeIs(&c.Call, "errors.New") || calleeIs(&c.Call, "google.golang.org/grpc/status.Error") || calleeIs(&c.Call, "google.golang.org/grpc/status.Errorf"))
+				})
+			}, sx.Query{BlockNode: func(n sx.Node) bool {
+				c, ok := n.Instr().(*ssa.Call)
+				return ok && c.Call.StaticCallee() != nil && strings.HasPrefix(c.Call.StaticCallee().Name(), "Marshal")
+			}})
+			if reach {
+				refused = w.Instr().Pos()
+			}
+		})
+		l.Check(refused == token.NoPos, "C07-E5", "gorums.(Codec).gorumsMarshal/reply-without-payload", gm.Pos(), "a Message without payload is encoded",
+			"the encoder refuses a Message whose payload is nil with an error of its own: the generated handlers of server-stream methods report a handler's error as WrapMessage(md, nil, err) - that reply cannot be marshalled, the server's SendMsg fails and ends the stream, and the caller gets 'stream is down' (Unavailable) for the node instead of the handler's code and message, as does every other call pending on that healthy node")
 	}
 	// receiver side
 	for _, f := range allFuncs(l.Prog, r.pkg) {
